@@ -8,7 +8,7 @@
 set -u
 ID="$1"; V="$2"; shift 2
 CHECKS=("$@"); [ ${#CHECKS[@]} -gt 0 ] || CHECKS=("$ID")
-SRC="/tmp/seed/$ID/out/$V"
+SRC="${SEED_SRC:-/tmp/seed/$ID/out/$V}"
 VERIF="$(cd "$(dirname "$0")/.." && pwd)"
 OUT="$VERIF/seeded/$ID-$V"
 SCR="/tmp/sv/$ID-$V"
